@@ -153,6 +153,12 @@ pub async fn handle<W: AsyncWrite + Unpin>(
         payload: BTreeMap::new(),
     };
     event.set_payload_json(normalized_payload);
+    #[cfg(sneldb_verif)]
+    {
+        if let Some(t) = crate::verif_hooks::clock_secs_override() {
+            event.timestamp = t;
+        }
+    }
 
     let shard = shard_manager.get_shard(context_id);
     debug!(
